@@ -51,14 +51,18 @@ enum Place {
     /// a windowed filter right after a de-duplication (`group {a, b} (take 1)`): the window must see the
     /// distinct rows
     AfterDistinct,
+    /// one filter whose condition is `plain && windowed`: the window must see the rows the plain operand removes
+    FilterPlainAndWindowed,
+    /// … and `windowed && plain`
+    FilterWindowedAndPlain,
 }
 
 /// One window program. Base relation: `from t | select {a, b}` (closed) or `from t` (open).
 pub fn gen(c: &mut Ctx, tier: Tier) -> Option<Program> {
     let open = c.flag("open-source");
     let places: &[Place] = match tier {
-        Tier::Quick => &[Place::Derive, Place::Filter, Place::AfterPlainAggregate, Place::AfterDistinct, Place::AfterTake],
-        Tier::Thorough => &[Place::Derive, Place::Filter, Place::Select, Place::SortKey, Place::DeriveThenFilter, Place::FilterThenDerive, Place::AfterTake, Place::AfterPlainAggregate, Place::BeforePlainAggregate, Place::AfterDistinct],
+        Tier::Quick => &[Place::Derive, Place::Filter, Place::AfterPlainAggregate, Place::AfterDistinct, Place::AfterTake, Place::FilterPlainAndWindowed],
+        Tier::Thorough => &[Place::Derive, Place::Filter, Place::Select, Place::SortKey, Place::DeriveThenFilter, Place::FilterThenDerive, Place::AfterTake, Place::AfterPlainAggregate, Place::BeforePlainAggregate, Place::AfterDistinct, Place::FilterPlainAndWindowed, Place::FilterWindowedAndPlain],
     };
     let place = *c.pick(places, "placement");
     let partitioned = c.flag("partition-by-a");
@@ -89,6 +93,8 @@ pub fn gen(c: &mut Ctx, tier: Tier) -> Option<Program> {
         Place::Derive | Place::DeriveThenFilter | Place::FilterThenDerive | Place::AfterTake | Place::AfterPlainAggregate | Place::BeforePlainAggregate => Step::Derive(vec![Item { alias: Some("w".into()), e: win }]),
         Place::Select => Step::Select(vec![Item { alias: None, e: E::Col(cb) }, Item { alias: Some("w".into()), e: win }]),
         Place::Filter | Place::AfterDistinct => Step::Filter(test),
+        Place::FilterPlainAndWindowed => Step::Filter(E::bin(Op::And, E::bin(Op::Gt, E::Col(cb), E::Int(1)), test)),
+        Place::FilterWindowedAndPlain => Step::Filter(E::bin(Op::And, test, E::bin(Op::Gt, E::Col(cb), E::Int(1)))),
         Place::SortKey => Step::Sort(vec![(false, win)]),
     };
     let mut inner: Vec<Step> = vec![];
